@@ -167,9 +167,45 @@ def sphereLevels (rows : Nat) : Array Float :=
 def hemiLevels (rows : Nat) : Array Float :=
   (0.0 :: (List.range (rows - 1)).reverse.map fun i => fpi / 2.0 - fpi * Float.ofNat i / (2.0 * Float.ofNat rows)).toArray
 
-def sphereVpoly (r : Float) (rows cols : Nat) : Float := r * r * r * ngon6 cols * frustumSum (sphereLevels rows)
+/-- the stack-of-frusta sum (the inscribed polyhedron computed slab by slab) -/
+def sphereVfrusta (r : Float) (rows cols : Nat) : Float := r * r * r * ngon6 cols * frustumSum (sphereLevels rows)
+
+/-- the closed form of theorem `C18.uvSphere_volume`: `(C r³/3) sin(2π/C) (1 + cos(π/R))` -/
+def sphereVclosed (r : Float) (rows cols : Nat) : Float :=
+  Float.ofNat cols * (r * r * r) / 3.0 * Float.sin (2.0 * fpi / Float.ofNat cols) * (1.0 + Float.cos (fpi / Float.ofNat rows))
+
+/-- the theorem's closed form, provided the independent stack-of-frusta sum agrees with it to 1e-9 (else NaN, which
+    makes `volumeOK` false) -/
+def sphereVpoly (r : Float) (rows cols : Nat) : Float :=
+  let a := sphereVclosed r rows cols
+  let b := sphereVfrusta r rows cols
+  if (a - b).abs ≤ 1e-9 * a.abs then a else nan
+
+/-- relative deficit bound of theorem `C18.uvSphere_volume_bounds`: `2π²/(3C²) + π²/(4R²)` -/
+def sphereDeficitBound (rows cols : Nat) : Float :=
+  2.0 * fpi * fpi / (3.0 * Float.ofNat cols * Float.ofNat cols) + fpi * fpi / (4.0 * Float.ofNat rows * Float.ofNat rows) + 1e-12
+
+/-- relative deficit bound of theorem `C18.cylinder_volume_bounds`: `2π²/(3S²)` -/
+def cylDeficitBound (sides : Nat) : Float :=
+  2.0 * fpi * fpi / (3.0 * Float.ofNat sides * Float.ofNat sides) + 1e-12
 def sphereVana (r : Float) : Float := 4.0 / 3.0 * fpi * r * r * r
-def hemiVpoly (r : Float) (rows cols : Nat) : Float := r * r * r * ngon6 cols * frustumSum (hemiLevels rows)
+def hemiVfrusta (r : Float) (rows cols : Nat) : Float := r * r * r * ngon6 cols * frustumSum (hemiLevels rows)
+
+/-- the closed form of theorem `C18.hemisphere_volume` -/
+def hemiVclosed (r : Float) (rows cols : Nat) : Float :=
+  let x := fpi / Float.ofNat rows
+  Float.ofNat cols * (r * r * r) / 6.0 * Float.sin (2.0 * fpi / Float.ofNat cols) *
+    (Float.sin x * Float.sin x + Float.cos x * (1.0 + Float.cos (x / 2.0)))
+
+/-- the theorem's closed form, provided the independent stack-of-frusta sum agrees with it to 1e-9 (else NaN) -/
+def hemiVpoly (r : Float) (rows cols : Nat) : Float :=
+  let a := hemiVclosed r rows cols
+  let b := hemiVfrusta r rows cols
+  if (a - b).abs ≤ 1e-9 * a.abs then a else nan
+
+/-- relative deficit bound of theorem `C18.hemisphere_volume_bounds`: `2π²/(3C²) + 5π²/(16R²)` -/
+def hemiDeficitBound (rows cols : Nat) : Float :=
+  2.0 * fpi * fpi / (3.0 * Float.ofNat cols * Float.ofNat cols) + 5.0 * fpi * fpi / (16.0 * Float.ofNat rows * Float.ofNat rows) + 1e-12
 def hemiVana (r : Float) : Float := 2.0 / 3.0 * fpi * r * r * r
 def cylVpoly (r h : Float) (sides : Nat) : Float := (Float.ofNat sides / 2.0) * Float.sin (2.0 * fpi / Float.ofNat sides) * r * r * h
 def cylVana (r h : Float) : Float := fpi * r * r * h
